@@ -290,9 +290,16 @@ int w08_param_count(int dynamic, int i) { if (dynamic) return (int)doc.dyn_templ
 /* instances: a partial instantiation of template 0 (which has nparams0 parameters): nargs arguments bind its first parameters,
    nfree new unbound parameters are declared */
 static expression_t args_[2];
-int w08_add_instance(int name, int nfree, int nargs)
+static expression_t pre_[2];
+/* the instantiated object is template 0 made into an ARBITRARY instance: its own `arguments` count is arbitrary and the
+   parameters with index >= nargs may already be bound (inherited mapping), as for an instance of an instance */
+int w08_add_instance(int name, int nfree, int nargs, int src_arguments, int pre_mapped)
 {
     template_t& t0 = doc.templates.at(0);
+    t0.arguments = (size_t)src_arguments;
+    for (int i = 0; i < 2; i++) {
+        if (i < (int)t0.parameters.get_size() && ((pre_mapped >> i) & 1)) { pre_[i] = expression_t::create_constant(60 + i); t0.mapping[t0.parameters[i]] = pre_[i]; }
+    }
     frame_t params = frame_t::create(frame_t());
     for (int i = 0; i < 2; i++) { if (i < nfree) params.add_symbol(40 + i, type_t(0), position_t()); }
     std::vector<expression_t> a;
@@ -318,7 +325,8 @@ int w08_inst(int what, int i)
     if (what >= 20 && what < 30) {
         symbol_t p = t0.parameters[what - 20];
         if (!in.mapping.has[p.id]) return 0;
-        return in.mapping.val[p.id].data == args_[what - 20].data ? 1 : 2;
+        if (in.mapping.val[p.id].data == args_[what - 20].data) return 1;
+        return in.mapping.val[p.id].data == pre_[what - 20].data ? 3 : 2; /* 3 = the inherited binding */
     }
     int ty = verif_symtab[in.uid.id].type;
     return (ty - 10000) / 1024 == TCODE_INSTANCE && (ty - 10000) % 16 == (int)in.unbound;
